@@ -344,4 +344,60 @@ def _has_exit_on_zero(b, body):
     return False
 
 
-RULES = [rule_inventory, rule_counts, rule_output_provenance, rule_no_hang]
+def rule_clippy_crossref(ctx):
+    """thorough: inventory completeness cross-reference. clippy's opt-in restriction lints (unwrap_used, expect_used,
+    indexing_slicing, panic, unreachable, arithmetic_side_effects) decide nothing here; every span they report in
+    non-test code must be covered by an E5 site on the same source line (guards against E5 missing a site)."""
+    import json
+    import os
+    import subprocess
+    from .facts import CACHE, REPO
+    R = "R12.6"
+    prog = ctx.prog
+    env = dict(os.environ, CARGO_NET_OFFLINE="true", CARGO_TARGET_DIR=os.path.join(CACHE, "target-clippy" + os.environ.get("HOOT_CACHE_TAG", "")))
+    lints = ["unwrap_used", "expect_used", "indexing_slicing", "panic", "unreachable", "arithmetic_side_effects"]
+    cmd = ["cargo", "+nightly", "clippy", "--offline", "--lib", "--message-format=json", "--", "-A", "clippy::all"] + \
+        [x for l in lints for x in ("-W", "clippy::" + l)]
+    r = subprocess.run(cmd, cwd=REPO, env=env, capture_output=True, text=True)
+    spans = []
+    for line in r.stdout.split("\n"):
+        try:
+            m = json.loads(line)
+        except Exception:
+            continue
+        if m.get("reason") != "compiler-message":
+            continue
+        msg = m["message"]
+        code = (msg.get("code") or {}).get("code") or ""
+        if code.replace("clippy::", "") not in lints:
+            continue
+        for sp in msg["spans"]:
+            if sp.get("is_primary"):
+                spans.append((code, sp["file_name"], sp["line_start"], sp["line_end"]))
+    if not ctx.floor(R, "clippy-spans", len(spans), 40, "clippy restriction-lint spans (did clippy run? rc=%d)" % r.returncode):
+        return
+    sites = inventory(prog)
+    covered = set()
+    for s_ in sites:
+        f, ln = s_.loc.split(":")[0], int(s_.loc.split(":")[1])
+        covered.add((f, ln))
+    # arithmetic on values that cannot overflow by type (u64 from usize casts etc.) has no MIR assert in debug either:
+    missing = []
+    for code, f, l0, l1 in spans:
+        if not any((f, l) in covered for l in range(l0, l1 + 1)):
+            missing.append("%s %s:%d" % (code, f, l0))
+    allowed = set(k[len("R12.6|"):] for k in ctx.reviewed if k.startswith("R12.6|"))
+    missing = [m for m in missing if m.split(" ", 1)[1] not in allowed and m not in allowed]
+    ctx.check(not missing, R, "inventory-complete", "every one of clippy's %d restriction-lint spans in non-test code lies on a line with an E5 panic site "
+              "(%d sites)" % (len(spans), len(sites)), detail=missing[:10],
+              bad_desc="clippy reports panic-capable code that the E5 inventory has no site for: %s" % missing[:5])
+
+
+def rule_decoder_contract(ctx):
+    """the contract used for the chunked reader (consumed <= offered, produced <= space) is established by the
+    decoder's cursor invariant and transition relation (C07 R07.1/R07.2), re-checked here because R12.2 relies on it"""
+    c07.rule_transitions(ctx)
+
+
+RULES = [rule_inventory, rule_decoder_contract, rule_counts, rule_output_provenance, rule_no_hang]
+THOROUGH_RULES = [rule_clippy_crossref]
